@@ -145,68 +145,122 @@ def random_params(rng: Any, nmin: int, nmax: int, bad: float = 0.0) -> List[List
 
 
 # ------------------------------------------------------------------ the property, stated on what is displayed
+def _is_literal(v: ast.AST) -> bool:
+    return (isinstance(v, ast.Name) and v.id == 'Literal') or (isinstance(v, ast.Attribute) and v.attr == 'Literal')
+
+
 class _Unquote(ast.NodeTransformer):
     """String annotations read as the expression they spell (PEP 484), recursively; the arguments of
-    Literal[...] are data and stay. Raises SyntaxError when a string does not spell one expression."""
+    Literal[...] are data and stay. strict: raises SyntaxError when a string does not spell one expression;
+    otherwise such a string is kept."""
+    def __init__(self, strict: bool) -> None:
+        self.strict = strict
+
     def visit_Constant(self, n: ast.Constant) -> ast.AST:
         if isinstance(n.value, str):
             p = cc.parse_string(n.value)
             if p is None:
-                raise SyntaxError('not an expression')
+                if self.strict:
+                    raise SyntaxError('not an expression')
+                return n
             return self.visit(p)
         return n
 
     def visit_Subscript(self, n: ast.Subscript) -> ast.AST:
         v = self.visit(n.value)
-        lit = (isinstance(v, ast.Name) and v.id == 'Literal') or (isinstance(v, ast.Attribute) and v.attr == 'Literal')
-        return ast.Subscript(v, n.slice if lit else self.visit(n.slice), n.ctx)
+        return ast.Subscript(v, n.slice if _is_literal(v) else self.visit(n.slice), n.ctx)
 
 
-def unquote(node: Optional[ast.AST]) -> Optional[ast.AST]:
+def unquote(node: Optional[ast.AST], strict: bool = True) -> Optional[ast.AST]:
+    """strict: the fully unquoted expression, or None when some string cannot be unquoted."""
     if node is None:
         return None
     try:
-        return _Unquote().visit(copy.deepcopy(node))
+        return _Unquote(strict).visit(copy.deepcopy(node))
     except SyntaxError:
-        return node      # cannot be unquoted: shown as written
+        return None
 
 
-def dump(n: Optional[ast.AST]) -> str:
-    return 'absent' if n is None else ast.dump(n)
+class _Equiv(ast.NodeTransformer):
+    """Expressions that mean the same are compared equal: {a, b} and set([a, b]) (pydoctor writes set displays
+    the second way). relax_one_tuple (used only to CLASSIFY a failure, never to accept it): (x,) and (x)."""
+    def __init__(self, relax_one_tuple: bool = False) -> None:
+        self.relax = relax_one_tuple
+
+    def visit_Set(self, n: ast.Set) -> ast.AST:
+        self.generic_visit(n)
+        return ast.Call(ast.Name('set', ast.Load()), [ast.List(n.elts, ast.Load())], [])
+
+    def visit_Tuple(self, n: ast.Tuple) -> ast.AST:
+        self.generic_visit(n)
+        if self.relax and len(n.elts) == 1 and not isinstance(n.elts[0], ast.Starred):
+            return n.elts[0]
+        return n
 
 
-def expected_of(fd: Any) -> Dict[str, Any]:
-    a = copy.deepcopy(fd.args)
-    for x in a.posonlyargs + a.args + ([a.vararg] if a.vararg else []) + a.kwonlyargs + ([a.kwarg] if a.kwarg else []):
-        x.annotation = unquote(x.annotation)
+def dump(n: Optional[ast.AST], relax: bool = False) -> str:
+    return 'absent' if n is None else ast.dump(_Equiv(relax).visit(copy.deepcopy(n)))
+
+
+def all_args(a: ast.arguments) -> List[ast.arg]:
+    return a.posonlyargs + a.args + ([a.vararg] if a.vararg else []) + a.kwonlyargs + ([a.kwarg] if a.kwarg else [])
+
+
+def pair_annotation(want: Optional[ast.AST], got: Optional[ast.AST]) -> Tuple[Optional[ast.AST], Optional[ast.AST]]:
+    """What the written annotation must be displayed as, and the displayed one, made comparable: when every
+    string in it can be unquoted the display must be exactly the unquoted expression; when some string cannot,
+    each string is shown either unquoted or as written (compared after unquoting what can be on both sides)."""
+    if want is None:
+        return None, got
+    s = unquote(want, True)
+    if s is not None:
+        return s, got
+    return unquote(want, False), unquote(got, False)
+
+
+def describe_args(a: ast.arguments) -> str:
+    r = []
+    npos = len(a.posonlyargs) + len(a.args)
+    ds = [None] * (npos - len(a.defaults)) + list(a.defaults)
+    un = lambda x: '' if x is None else ast.unparse(x)
+    for i, x in enumerate(a.posonlyargs + a.args):
+        r.append('%s:%s%s%s' % ('PO' if i < len(a.posonlyargs) else 'POK', x.arg,
+                                '' if x.annotation is None else ': ' + un(x.annotation),
+                                '' if ds[i] is None else ' = ' + un(ds[i])))
+    if a.vararg:
+        r.append('VAR:%s%s' % (a.vararg.arg, '' if a.vararg.annotation is None else ': ' + un(a.vararg.annotation)))
+    for x, d in zip(a.kwonlyargs, a.kw_defaults):
+        r.append('KW:%s%s%s' % (x.arg, '' if x.annotation is None else ': ' + un(x.annotation),
+                                '' if d is None else ' = ' + un(d)))
+    if a.kwarg:
+        r.append('VKW:%s%s' % (a.kwarg.arg, '' if a.kwarg.annotation is None else ': ' + un(a.kwarg.annotation)))
+    return '[' + ', '.join(r) + ']'
+
+
+def compare_def(fd: Any, b: Any, line: str, relax: bool) -> Optional[str]:
+    if b.name != fd.name or isinstance(b, ast.AsyncFunctionDef) != isinstance(fd, ast.AsyncFunctionDef):
+        return 'displayed %r: name/async differ from the source (%s, async=%s)' % (
+            line, fd.name, isinstance(fd, ast.AsyncFunctionDef))
+    wa, ga = copy.deepcopy(fd.args), copy.deepcopy(b.args)
+    wl, gl = all_args(wa), all_args(ga)
+    for x in wl:
         x.type_comment = None
-    ret = unquote(fd.returns)
-    if isinstance(ret, ast.Constant) and ret.value is None:
-        ret = None
-    return {'args': dump(a), 'ret': dump(ret), 'async': isinstance(fd, ast.AsyncFunctionDef), 'name': fd.name}
+    if len(wl) == len(gl):
+        for x, y in zip(wl, gl):
+            x.annotation, y.annotation = pair_annotation(x.annotation, y.annotation)
+    if dump(wa, relax) != dump(ga, relax):
+        return 'displayed %r does not have the written parameters: written %s displayed %s' % (
+            line, describe_args(wa), describe_args(ga))
+    wr, gr = pair_annotation(fd.returns, b.returns)
+    if isinstance(wr, ast.Constant) and wr.value is None:
+        wr = None
+    if dump(wr, relax) != dump(gr, relax):
+        return 'displayed %r: return annotation reads %s, written (unquoted, `-> None` omitted) %s' % (
+            line, 'absent' if gr is None else ast.unparse(gr), 'absent' if wr is None else ast.unparse(wr))
+    return None
 
 
-def describe_args_diff(want: ast.arguments, got: ast.arguments) -> str:
-    def row(a: ast.arguments) -> List[str]:
-        r = []
-        npos = len(a.posonlyargs) + len(a.args)
-        ds = [None] * (npos - len(a.defaults)) + list(a.defaults)
-        for i, x in enumerate(a.posonlyargs + a.args):
-            r.append('%s:%s%s%s' % ('PO' if i < len(a.posonlyargs) else 'POK', x.arg,
-                                    '' if x.annotation is None else ': ' + ast.unparse(x.annotation),
-                                    '' if ds[i] is None else ' = ' + ast.unparse(ds[i])))
-        if a.vararg:
-            r.append('VAR:%s%s' % (a.vararg.arg, '' if a.vararg.annotation is None else ': ' + ast.unparse(a.vararg.annotation)))
-        for x, d in zip(a.kwonlyargs, a.kw_defaults):
-            r.append('KW:%s%s%s' % (x.arg, '' if x.annotation is None else ': ' + ast.unparse(x.annotation),
-                                    '' if d is None else ' = ' + ast.unparse(d)))
-        if a.kwarg:
-            r.append('VKW:%s%s' % (a.kwarg.arg, '' if a.kwarg.annotation is None else ': ' + ast.unparse(a.kwarg.annotation)))
-        return r
-    return 'written [%s] displayed [%s]' % (', '.join(row(want)), ', '.join(row(got)))
-
-
-def oracle(case: Dict[str, Any], obs: Dict[str, Any]) -> Optional[str]:
+def oracle(case: Dict[str, Any], obs: Dict[str, Any], relax: bool = False) -> Optional[str]:
     """None = the property holds on this observation (or does not apply: not a valid definition)."""
     src = case['src']
     try:
@@ -237,25 +291,34 @@ def oracle(case: Dict[str, Any], obs: Dict[str, Any]) -> Optional[str]:
         return 'the entry shows %d definition line(s) %r for %d written (%d overloads)' % (
             len(shown), shown, len(want), len(ovs))
     for fd, line in zip(want, shown):
-        exp = expected_of(fd)
         try:
             back = ast.parse(line + ' pass').body
         except (SyntaxError, ValueError) as e:
             return 'displayed definition %r is not Python: %s' % (line, e)
         if len(back) != 1 or not isinstance(back[0], (ast.FunctionDef, ast.AsyncFunctionDef)):
             return 'displayed definition %r does not read back as one def' % (line,)
-        b = back[0]
-        if b.name != exp['name'] or isinstance(b, ast.AsyncFunctionDef) != exp['async']:
-            return 'displayed %r: name/async differ from the source (%s, async=%s)' % (line, exp['name'], exp['async'])
-        if dump(b.args) != exp['args']:
-            a2 = copy.deepcopy(fd.args)
-            for x in a2.posonlyargs + a2.args + ([a2.vararg] if a2.vararg else []) + a2.kwonlyargs + ([a2.kwarg] if a2.kwarg else []):
-                x.annotation = unquote(x.annotation)
-            return 'displayed %r does not have the written parameters: %s' % (line, describe_args_diff(a2, b.args))
-        if dump(b.returns) != exp['ret']:
-            return 'displayed %r: return annotation reads %s, written (unquoted, `-> None` omitted) %s' % (
-                line, dump(b.returns), exp['ret'])
+        msg = compare_def(fd, back[0], line, relax)
+        if msg:
+            return msg
     return None
+
+
+def unstring_oracle(src: str, o: Dict[str, Any]) -> Optional[str]:
+    """The property on one annotation: shown unquoted; a string that spells no expression is kept."""
+    if 'err' in o:
+        return 'unstring_annotation(%s) raised %s' % (src, o['err'])
+    node = ast.parse(src, mode='eval').body
+    strict = unquote(node, True)
+    got = cc.norm(o['expr'])
+    if strict is not None:
+        if cc.norm(cc.enc_expr(strict)) != got:
+            return 'annotation %s is not shown unquoted as PEP 484 reads it' % src
+        if o['reported']:
+            return 'annotation %s can be unquoted but a syntax error was reported' % src
+        return None
+    if not o['reported']:
+        return 'annotation %s contains a string that is not an expression, nothing was reported' % src
+    return None     # the node kept is compared with the model (in-place partial unquoting), see Model/Sig.v `after`
 
 
 # ------------------------------------------------------------------ model <-> implementation
@@ -456,7 +519,7 @@ class Check(PropertyCheck):
         cases = self.cases()
         impl, mw = self.run_cases(cases)
         self.evaluations += len(cases)
-        ncorr = norac = 0
+        ncorr = norac = nknown = 0
         seen_src = set()
         for c, o, m in zip(cases, impl, mw):
             self.count('stream_' + c['stream'])
@@ -484,9 +547,20 @@ class Check(PropertyCheck):
                 ncorr += 1
                 out.append(v)
             msg = oracle(c, o)
-            if msg is not None and norac < 20:
-                norac += 1
-                out.append(Violation('oracle', msg, case=self.shrink(c, msg), observed=o.get('shown', o.get('err'))))
+            if msg is not None:
+                self.count('oracle_failures')
+                if oracle(c, o, relax=True) is None:
+                    # differs only by a one-element tuple expression shown without its comma (known, C15's domain)
+                    self.count('oracle_failures_one_tuple')
+                    if nknown < 2:
+                        nknown += 1
+                        out.append(Violation('oracle', msg, case=c, observed={'found': True, 'shown': o['shown']}))
+                elif norac < 6:
+                    norac += 1
+                    c2 = self.shrink(c, msg) if norac <= 2 else c
+                    o2 = o if c2 is c else lib.run_impl_worker('c14_sig.py', [{'t': 'def', 'src': c2['src'], 'q': c2['q']}])[0]
+                    out.append(Violation('oracle', oracle(c2, o2) or msg, case=c2,
+                                         observed={'found': o2.get('found'), 'shown': o2.get('shown'), 'err': o2.get('err')}))
         self.stats['distinct_nontrivial'] = len(seen_src)
         for c in cases[700:702] + cases[-130:-128] + cases[-2:]:
             self.sample({'q': c['q'], 'stream': c['stream'], 'src': c['src'][len(HEADER):]})
@@ -658,12 +732,9 @@ class Check(PropertyCheck):
                 res.append(Violation('correspondence', 'Model.Sig.unstring_annotation and astutils.unstring_annotation disagree',
                                      case={'t': 'unstring', 'expr': s}, expected=m, observed=got))
             # the property on one annotation: shown unquoted (or kept when it cannot be)
-            if 'err' not in o:
-                node = ast.parse(s, mode='eval').body
-                want = cc.norm(cc.enc_expr(unquote(node)))
-                if want != cc.norm(o['expr']) and len(res) < 10:
-                    res.append(Violation('oracle', 'annotation %s is not shown unquoted as PEP 484 reads it' % s,
-                                         case={'t': 'unstring', 'expr': s}, expected=want, observed=cc.norm(o['expr'])))
+            msg = unstring_oracle(s, o)
+            if msg and len(res) < 10:
+                res.append(Violation('oracle', msg, case={'t': 'unstring', 'expr': s}, observed=o))
         self.stats['unstring_cases'] = len(exprs)
         self.evaluations += len(exprs)
         return res
@@ -671,7 +742,7 @@ class Check(PropertyCheck):
     # -------------------------------------------------------------- Spec: how the parser stores defaults
     def to_ast_check(self, cases: List[Dict[str, Any]]) -> List[Violation]:
         sel = [c for c in cases if c.get('layout') and c['stream'] in ('exhaustive', 'random', 'corpus')
-               and c['src'].count('def f(') == 1]
+               and c['src'].count('def f(') == 1 and '@overload' not in c['src']]
         if self.tier == 'quick':
             sel = sel[:1500] + sel[-200:]
 
@@ -730,12 +801,27 @@ class Check(PropertyCheck):
         for c, o in zip(cases, impl):
             msg = oracle(c, o)
             if msg:
-                out.append(Violation('oracle', msg, case=self.shrink(c, msg), observed=o.get('shown', o.get('err'))))
+                if oracle(c, o, relax=True) is None:
+                    continue     # the known one-element-tuple rendering; reported by correspondence()
+                out.append(Violation('oracle', msg, case=self.shrink(c, msg) if len(out) < 2 else c,
+                                     observed={'found': o.get('found'), 'shown': o.get('shown'), 'err': o.get('err')}))
                 if len(out) >= 5:
                     break
         return out
 
     def classify_known(self, v: Violation, known: List[dict]) -> Optional[dict]:
+        """one-element-tuple: the displayed definitions read back as the written ones once (x,) and (x) are
+        identified -- and ONLY then; everything else about the signature must be right."""
+        if v.kind != 'oracle' or not isinstance(v.case, dict) or v.case.get('t') != 'def':
+            return None
+        obs = v.observed
+        if not isinstance(obs, dict) or not obs.get('found') or obs.get('shown') is None:
+            return None
+        if oracle(v.case, obs) is None or oracle(v.case, obs, relax=True) is not None:
+            return None
+        for k in known:
+            if k.get('match', {}).get('class') == 'one-element-tuple-expression':
+                return k
         return None
 
     def replay(self, data: Any) -> int:
@@ -745,13 +831,11 @@ class Check(PropertyCheck):
             return 1
         if case['t'] == 'unstring':
             o = lib.run_impl_worker('c14_sig.py', [case])[0]
-            node = ast.parse(case['expr'], mode='eval').body
-            want = cc.norm(cc.enc_expr(unquote(node)))
+            msg = unstring_oracle(case['expr'], o)
             print('annotation :', case['expr'])
             print('pydoctor   :', o)
-            ok = 'err' not in o and cc.norm(o['expr']) == want
-            print('property   :', 'holds' if ok else 'the annotation is not shown unquoted as PEP 484 reads it')
-            return 0 if ok else 1
+            print('property   :', msg or 'holds')
+            return 1 if msg else 0
         o = lib.run_impl_worker('c14_sig.py', [{'t': 'def', 'src': case['src'], 'q': case['q']}])[0]
         msg = oracle(case, o)
         print('source:\n' + case['src'])
